@@ -572,11 +572,12 @@ class World:
             return g.subgraph(arg)
 
         def mk_model(m):
-            if any(a not in m.atoms for a in S) or len(set(S)) != len(S):
+            if any(a not in m.atoms for a in S):
                 return None
             if not m.buildable():
                 return None   # orphan descriptor of a removed bond: not judged
-            return model.subgraph(m, S)
+            # an iterable may name an atom more than once
+            return model.subgraph(m, list(dict.fromkeys(S)))
         self._derive(op, [op["src"]], op["dst"], mk_model, mk_real, "subgraph", {"C17"})
 
     def op_compose(self, op):
